@@ -481,7 +481,7 @@ def c19(tier, seed):
                      InitPads=[False], Variants=["tr"], TrafficMode="short",
                      PatSet=["NN", "XX", "IK", "X", "NK", "KK", "IX", "XK1", "X1X1", "K1X"])
         cfgs = [("c19-tr", dict(MaxSend=1, Depth=3, BadBudget=2, SetBudget=0, SmallBufs=True)),
-                ("c19-sl", dict(Stateful=False, MaxSend=1, Depth=3, BadBudget=2, SetBudget=0, SmallBufs=True))]
+                ("c19-sl", dict(Stateful=False, MaxSend=1, Depth=2, BadBudget=1, SetBudget=0, SmallBufs=True))]
         bk = "mix-sample"
     else:
         t1 = session("c19-hs", FaultBudget=1, FaultKinds=kinds, Profiles=["mid", "zero"], PskMode="single",
@@ -577,9 +577,45 @@ def c10(tier, seed):
     return res
 
 
+def c18(tier, seed):
+    t = run_tlc("MC_Prims", {}, invariants=["Laws"], name="c18-prims", workers=1, timeout=600)
+    rounds = 6 if tier == "quick" else 400
+    viol, evals, distinct, samples = [], 0, 0, []
+    for k in range(rounds):
+        resf = os.path.join(WORK, "c18-prims", "result.json")
+        rc, out = harness(["prims", "--cases", t["out"], "--seed", str(seed * 1000 + k), "--result", resf,
+                           "--replay-dir", REPLAYS])
+        r = json.load(open(resf))
+        evals += r["evaluations"]
+        distinct = max(distinct, r["distinct"])
+        samples = r["samples"]
+        viol += r["violations"]
+        if viol:
+            break
+    cov = dict(evaluations=evals, distinct_nontrivial=distinct, samples=samples,
+               explanation="structural layer only: HMAC/HKDF as term rewriting over a raw hash, AEAD law + nonce encodings, "
+                           "REKEY, DH commutativity, key-pair consistency; the numeric cores of the third-party primitive "
+                           "crates are the trusted base (cross-checked RustCrypto vs ring, RFC 4231/7748 vectors, Cacophony anchor)",
+               rule="TLC (spec/MC_Prims.tla) checks the AEAD and DH laws on the terms and emits 513 cases: HMAC for key lengths "
+                    "{0,1,31,32,33,63,64,65,127,128} x data lengths {0,1,55,56,63,64,65,111,112,127,128,129,300}; HKDF with 1/2/3 "
+                    "outputs x ikm lengths {0,1,32,56,65,300} as EXPANDED terms over the raw hash (ipad/opad, counter bytes, "
+                    "chaining); AEAD for 16 nonces with every byte position of the counter set x ad/plaintext lengths up to "
+                    "65519, each with 9 must-reject alterations (other key/nonce/ad, 4 flipped bytes incl. tag, nonce + 2^32, "
+                    "nonce with top bit flipped); REKEY; DH public keys, shared secrets, commutativity, 12 arbitrary peer "
+                    "strings; key generation. Each case is run through the public trait methods of the objects returned by "
+                    "DefaultResolver and RingResolver (all 4 hashes, 3 ciphers, 2 curves) with fresh random keys/data per "
+                    "round; distinct = distinct (backend, primitive, operation, lengths/nonce) combinations",
+               states=t["distinct"], transitions=t["states"], rounds=rounds)
+    return dict(level="other", coverage=cov, violations=viol,
+                assumptions=["SHA-2, BLAKE2, ChaCha20, Poly1305, AES, GHASH, X25519, P-256 arithmetic in the third-party crates "
+                             "(sha2, blake2, chacha20poly1305, aes-gcm, x25519-dalek/curve25519-dalek, p256, ring) is trusted; "
+                             "this check decides only snow's own code at this layer (types.rs HMAC/HKDF, resolver wrappers, "
+                             "nonce layouts, default rekey)"])
+
+
 CHECKS = {
     "C01": c01, "C02": c02, "C03": c03, "C04": c04, "C05": c05, "C06": c06, "C07": c07, "C08": c08, "C09": c09, "C10": c10, "C11": c11, "C12": c12, "C13": c13,
-    "C14": c14, "C15": c15, "C16": c16, "C17": c17, "C19": c19, "C20": c20,
+    "C14": c14, "C15": c15, "C16": c16, "C17": c17, "C18": c18, "C19": c19, "C20": c20,
 }
 
 
